@@ -311,9 +311,9 @@ func annotate(in, out []*big.Int) []*big.Int {
 // ---- generators ---------------------------------------------------------------------------------------
 
 type gIP struct {
-	a, st      int
-	prim       bool
-	pod, uid   int
+	a, st    int
+	prim     bool
+	pod, uid int
 }
 type gENI struct {
 	id, st, ty, mode int
